@@ -1049,6 +1049,31 @@ fn rule_c09(ctx: &Ctx, out: &mut Vec<Violation>) {
             out.push(v("C09.unique", "dup_id", format!("message id {} returned for {} different published messages", id, list.len())));
         }
     }
+    // Two different messages (by the token the harness put into each payload) delivered under one
+    // message ID, whether or not a Publish ever returned that ID (a publish that failed half-way
+    // through the fan-out has delivered to some subscriptions).
+    {
+        let mut seen: HashMap<&str, &str> = HashMap::new();
+        let mut reported: HashSet<&str> = HashSet::new();
+        for d in m.deliveries.iter() {
+            if d.recv.token.is_empty() {
+                continue;
+            }
+            match seen.get(d.recv.msg_id.as_str()) {
+                None => {
+                    seen.insert(d.recv.msg_id.as_str(), d.recv.token.as_str());
+                }
+                Some(t) if *t != d.recv.token.as_str() => {
+                    if reported.insert(d.recv.msg_id.as_str()) {
+                        let detail = format!("message id {} was delivered for two different messages (tokens {} and {}; the second on {})", d.recv.msg_id, t, d.recv.token, d.sub);
+                        out.push(v("C09.unique", "dup_delivered", detail.clone()));
+                        out.push(v("C08.ids", "reused", detail));
+                    }
+                }
+                _ => {}
+            }
+        }
+    }
     // A push body that cannot be read back (not JSON, data not standard base64, no message id)
     // did not deliver the published bytes.
     for p in m.posts.values() {
@@ -1224,7 +1249,7 @@ fn rule_quiescent_late(ctx: &Ctx, out: &mut Vec<Violation>) {
             continue;
         }
         let incomplete_pull = m.calls.values().any(|c| matches!(&c.req, Req::Pull { sub: s, .. } | Req::DrainPull { sub: s } if *s == sub) && c.inv_seq < limit && !matches!(c.out, Some(Outcome::Ok(_)) | Some(Outcome::Err(_, _))));
-        let incomplete_stream = m.streams.values().any(|st| st.sub == sub && matches!(&st.end, Some((es, _, e)) if *es < limit && !matches!(e, StreamEnd::Status(_, _) | StreamEnd::Eof)));
+        let incomplete_stream = m.streams.values().any(|st| st.sub == sub && st.window > 0) || m.streams.values().any(|st| st.sub == sub && matches!(&st.end, Some((es, _, e)) if *es < limit && !matches!(e, StreamEnd::Status(_, _) | StreamEnd::Eof)));
         let cancelled_bg = m.calls.values().any(|c| matches!(&c.req, Req::Pull { sub: s, bg_slot: Some(slot), .. } if *s == sub && m.cancel_bg.contains_key(slot)));
         if incomplete_pull || incomplete_stream || cancelled_bg {
             continue;
@@ -1288,7 +1313,7 @@ fn rule_vanished(ctx: &Ctx, out: &mut Vec<Violation>) {
         let dels: Vec<&Call> = m.sub_deletes.get(&sub).map(|v| v.iter().map(|c| &m.calls[c]).collect()).unwrap_or_default();
         let first_effective_delete = dels.iter().filter(|c| !matches!(c.out, Some(Outcome::Err(_, _)) | Some(Outcome::Abandoned(_)))).map(|c| c.inv_seq).min().unwrap_or(u64::MAX);
         let incomplete_pull = m.calls.values().any(|c| matches!(&c.req, Req::Pull { sub: s, .. } | Req::DrainPull { sub: s } if *s == sub) && c.inv_seq < limit && !matches!(c.out, Some(Outcome::Ok(_)) | Some(Outcome::Err(_, _))));
-        let incomplete_stream = m.streams.values().any(|st| st.sub == sub && (matches!(&st.end, Some((es, _, e)) if *es < limit && !matches!(e, StreamEnd::Status(_, _) | StreamEnd::Eof)) || !matches!(st.started, Some((_, _, _)))));
+        let incomplete_stream = m.streams.values().any(|st| st.sub == sub && st.window > 0) || m.streams.values().any(|st| st.sub == sub && (matches!(&st.end, Some((es, _, e)) if *es < limit && !matches!(e, StreamEnd::Status(_, _) | StreamEnd::Eof)) || !matches!(st.started, Some((_, _, _)))));
         let cancelled_bg = m.calls.values().any(|c| matches!(&c.req, Req::Pull { sub: s, bg_slot: Some(slot), .. } if *s == sub && m.cancel_bg.contains_key(slot)));
         if incomplete_pull || incomplete_stream || cancelled_bg {
             continue;
@@ -1370,6 +1395,10 @@ fn rule_c12(ctx: &Ctx, out: &mut Vec<Violation>) {
             for st in m.streams.values().filter(|s| &s.sub == sub) {
                 let started_ok = matches!(st.started, Some((ss, _, OK)) if ss < dinv);
                 if !started_ok {
+                    continue;
+                }
+                // a client that is not reading its responses is told when it reads again
+                if st.stalls.iter().any(|(on, off)| *on <= barrier.seq && off.map(|o| o >= dinv).unwrap_or(true)) {
                     continue;
                 }
                 let side = if st.close_req.map(|(s, _)| s < dinv).unwrap_or(false) { "request side closed" } else { "request side open" };
